@@ -10,6 +10,13 @@ USES_GEN = True
 READY = True
 GEN_PROPS = ["Dashu.Props.GenRound", "Dashu.Props.C03Link"]
 GEN_AUDIT = ["Dashu.Audit.GenRound", "Dashu.Audit.C03Link"]
+# Tie A, typed translator: `Context::repr_round`, `repr_round_sum`, `repr_add_large_small` / `repr_add_small_large`,
+# `Context::add` / `sub` regenerated from float/src/{repr,add}.rs and proved equal to the model functions the driver runs
+GEN_PROPS += ["Dashu.Props.GenFloatOps", "Dashu.Props.GenFloatAdd"]
+GEN_AUDIT += ["Dashu.Audit.GenFloatOps", "Dashu.Audit.GenFloatAdd"]
+# Tie A, typed translator: the by-reference operator forms `FBig ± &FBig`, `&FBig ± &FBig` regenerated from float/src/add.rs
+GEN_PROPS += ["Dashu.Props.GenFloatForms"]
+GEN_AUDIT += ["Dashu.Audit.GenFloatForms"]
 
 # ----------------------------------------------------------------------------- known-finding predicates
 # (called from known_findings.jsonl `py` conditions; each describes the input class of one defect,
@@ -47,12 +54,16 @@ def kf_long_operand(op, args):
         return d1 > 2 * p
     if op == "c.cubic":
         return d1 > 3 * p
+    if len(args) < 2 or not args[1].startswith("f:"):
+        return False
     B2, s2, e2, m2, d2 = _opnd(args[1])
-    if op == "c.mul":
+    # f.* ops reach the same regions when one operand has unlimited precision (0) and is longer than the
+    # other operand's precision: Context::max picks the limited precision
+    if op in ("c.mul", "f.mul"):
         return d1 > 2 * p or d2 > 2 * p
-    if op == "c.div":
+    if op in ("c.div", "f.div"):
         return s2 != 0 and d1 > d2 + p
-    if op in ("c.add", "c.sub"):
+    if op in ("c.add", "c.sub", "f.add", "f.sub"):
         return d1 > p or d2 > p
     return False
 
@@ -64,12 +75,29 @@ def pick(rng):
 
 def gaps(rng, p, ld, rd):
     g = [0, 0, 1, 1, 2, abs(ld - p) + rng.choice([-1, 0, 1]), p - 1, p, p + 1, p + 2, rd + 1, rd + 2, rd + 3,
-         p - ld, p - ld + 1, p - ld + rd, p + rd + 1, p + rd + 2, p + rd + 3, 3 * p + 10, 5 * p + 40]
+         rd - 3, rd - 2, rd - 1, rd, rd + 4,     # a digits_ub estimate that is off by a few digits would move the far-apart boundary
+
+         p - ld, p - ld + 1, p - ld + rd, p - ld + rd + 1, p - ld + rd + 2, p - ld + rd + 3, p + rd + 1, p + rd + 2, p + rd + 3, 3 * p + 10, 5 * p + 40]
     return max(0, rng.choice(g))
 
 def gen_addsub(rng, n, ctx_long=False):
     for _ in range(n):
         B, m, p = pick(rng)
+        if not ctx_long and rng.random() < 0.05:
+            # directed: long operands right at the two thresholds of the far-apart branch
+            # (`est + 1 < ediff`, `est + 1 + p < digits + ediff`, est = digits_ub of the small operand), moved by up
+            # to 4 % of the length - an estimate that is off by a few per cent of the digit count shows only here
+            p = rng.choice([64, 100, 100, 200, 400]); B = rng.choice([10, 10, 10, 2, 3, 16, 36])
+            ld = rng.choice([1, p, p - 1]); rd = rng.choice([p, p, p // 2, p - 1])
+            a = rand_sig(rng, B, ld); b = rand_sig(rng, B, rd)
+            edge = max(rd + 2, rd + 2 + p - ld)
+            gap = max(0, edge + rng.choice([-(rd // 25), -(rd // 40), -(rd // 60), -3, -2, -1, 0, 1, 2]))
+            ea = rng.choice([0, -7, 30]); eb = ea - gap
+            x = (rng.choice([1, -1]) * a, ea); y = (rng.choice([1, -1]) * b, eb)
+            if rng.random() < 0.5:
+                x, y = y, x
+            yield Case("f." + rng.choice(["add", "sub"]), [fenc(B, x[0], x[1], p, m), fenc(B, y[0], y[1], p, m)])
+            continue
         maxd = p if not ctx_long else 3 * p + 2
         ld = rng.choice([1, 1, p, p, max(1, p - 1), rng.randrange(1, maxd + 1)])
         rd = rng.choice([1, 1, p, p, max(1, p - 1), rng.randrange(1, maxd + 1)])
@@ -192,6 +220,21 @@ def gen_unary(rng, n, ctx_long=False):
                 s, e = normalize(B, s, e)
                 if not ctx_long and ndigits(B, s) > p:
                     s = rand_sig(rng, B, d)
+            elif r < 0.34 and ctx_long:
+                # the half test with discarded low digits: S = r^2 + r (rem == root) followed by low digits between
+                # 1/4 and 1/2 (and around both), scaled so that exactly those digits are split off
+                rt = rand_sig(rng, B, p, "random")
+                S = rt * rt + rt
+                k = rng.choice([1, 2, 3, 8])
+                bk = B ** k
+                low = rng.choice([bk // 4, bk // 4 + 1, max(bk // 4 - 1, 0), bk // 3, bk // 2, max(bk // 2 - 1, 1), bk // 2 + 1, 1, bk - 1])
+                s = S * bk + low
+                if s % B == 0:
+                    s += 1
+                dS = ndigits(B, S)
+                e = rng.choice([0, 2, -4, 6])
+                if (e - (dS + k)) % 2 != (0 if dS == 2 * p else 1):
+                    e += 1
             elif r < 0.36:
                 s = -s
             elif r < 0.40:
@@ -211,15 +254,34 @@ def gen_unary(rng, n, ctx_long=False):
             yield Case("f." + op, [fenc(B, s, e, p, m)])
 
 def gen_unlimited(rng, n):
+    """precision 0 = unlimited: both operands unlimited (exact results / UnlimitedPrecision panics), one operand
+    unlimited and LONGER than the other's precision (Context::max picks the limited precision: the operators and
+    the Context methods then work on an operand that does not fit), and Context methods called with d:0"""
     for _ in range(n):
         B = rng.choice(BASES); m = rng.choice(MODES)
         a = rand_sig(rng, B, rng.randrange(1, 40)) * rng.choice([1, -1]); b = rand_sig(rng, B, rng.randrange(1, 40)) * rng.choice([1, -1])
         ea = rng.choice([0, 3, -5]); eb = rng.choice([0, -60, 9])
         op = rng.choice(["add", "sub", "mul", "div", "sqr", "cubic", "sqrt", "inv"])
-        if op in ("add", "sub", "mul", "div"):
-            yield Case("f." + op, [fenc(B, a, ea, 0, m), fenc(B, b, eb, 0, m)], nontrivial=False)
+        kind = rng.choice(["both0", "both0", "mixed", "mixed", "ctx0"])
+        if kind == "both0":
+            if op in ("add", "sub", "mul", "div"):
+                yield Case("f." + op, [fenc(B, a, ea, 0, m), fenc(B, b, eb, 0, m)], nontrivial=False)
+            else:
+                yield Case("f." + op, [fenc(B, a, ea, 0, m)], nontrivial=False)
+        elif kind == "mixed":
+            if op not in ("add", "sub", "mul", "div"):
+                op = rng.choice(["add", "sub", "mul", "div"])
+            p = rng.choice([1, 2, 3, 5, 8])
+            b2 = rand_sig(rng, B, rng.randrange(1, p + 1)) * rng.choice([1, -1])
+            x, y = fenc(B, a, ea, 0, m), fenc(B, b2, eb if rng.random() < 0.5 else ea - rng.randrange(0, 4), p, m)
+            if rng.random() < 0.5:
+                x, y = y, x
+            yield Case("f." + op, [x, y])
         else:
-            yield Case("f." + op, [fenc(B, a, ea, 0, m)], nontrivial=False)
+            if op in ("add", "sub", "mul", "div"):
+                yield Case("c." + op, [fenc(B, a, ea, 0, m), fenc(B, b, eb, 0, m), dec(0)], nontrivial=False)
+            else:
+                yield Case("c." + op, [fenc(B, a, ea, 0, m), dec(0)], nontrivial=False)
 
 def generate(rng, tier):
     k = 1 if tier == "quick" else 80
@@ -229,18 +291,21 @@ def generate(rng, tier):
     yield from gen_addsub(rng, 500 * k, ctx_long=True)
     yield from gen_muldiv(rng, 400 * k, ctx_long=True)
     yield from gen_unary(rng, 400 * k, ctx_long=True)
-    yield from gen_unlimited(rng, 60 * k)
+    yield from gen_unlimited(rng, 200 * k)
 
 def nontrivial(c):
     return True
 
 RULE = ("modes x bases {2,3,10,16,36} x p in {1,2,3,5,8,24,53,100}; add/sub operand pairs built from the branch conditions of add.rs: "
-        "exponent gap in {0,1,2, |ldigits-p|+-1, p-1..p+2, rdigits+1..+3, p-ldigits(+1,+rdigits), p+rdigits+1..+3, 3p+10, 5p+40}, digit "
+        "exponent gap in {0,1,2, |ldigits-p|+-1, p-1..p+2, rdigits-3..+4, p-ldigits(+1,+rdigits..+rdigits+3), p+rdigits+1..+3, 3p+10, 5p+40}, "
+        "64..400-digit operands with the gap at both far-apart thresholds moved by {-4%,-2.5%,-1.6% of the length, -3..+2}, digit "
         "counts {1,p-1,p,random}, cancellation to 0 / to one ulp, ties and near-ties at the rounding position (half, half+-1, half "
         "followed by zeros and a sticky digit), carries out of B^p-1, sticky-only operands, zero operands, operands swapped, mixed "
         "precisions; mul/div: digit counts {1,p-1,p}, exact quotients, quotients ending in a half, small divisors, divisor 0, products "
-        "with a half low part; sqrt: digit-count parity x exponent parity x perfect squares, k^2+-1, negative, zero; sqr/cubic/inv; the "
-        "same through the Context methods with operands longer than p, 2p, 3p digits (c.* ops); unlimited precision. f.* cases run the "
+        "with a half low part; sqrt: digit-count parity x exponent parity x perfect squares, k^2+-1, remainder == root with the low digits "
+        "around 1/4 and 1/2 of the scale, negative, zero; sqr/cubic/inv; the "
+        "same through the Context methods with operands longer than p, 2p, 3p digits (c.* ops); unlimited precision: both operands "
+        "unlimited, one unlimited operand longer than the other's precision (operators at Context::max), Context precision 0. f.* cases run the "
         "Context method and all operator/method forms. distinct := distinct (op,args).")
 REFINED = ["Context::repr_round", "Context::mul/sqr/cubic (operands <= 2p/3p digits; all operands without the pre-shrink)", "FBig * FBig",
            "Context::repr_div / div (dividend <= rhs.digits+p) / inv, div_align", "Round::round_ratio",
@@ -250,7 +315,15 @@ REFINED = ["Context::repr_round", "Context::mul/sqr/cubic (operands <= 2p/3p dig
 FRONTIER = ["UBig::sqrt_rem: a parameter with its C12 contract (SqrtRemOk); Props/C03Link composes Context::sqrt with builder-nt's mirrored "
             "sqrtRemRepr (whose word/double-word primitive and Karatsuba kernel are frontier in C12) and proves it equal to the Nat.sqrt "
             "instance the driver runs",
-            "f32 estimate digits_ub / digits_lb: parameters with enclosure hypotheses (driver replica checked on every operand)"]
+            "f32 estimate digits_ub / digits_lb: parameters with enclosure hypotheses (see C10: Props/C10Est, C10EstNoStd; driver "
+            "replica checked on every operand)"]
+THEOREMS = ["Dashu.Props.C03." + t for t in (
+    "mul_operator_contract mul_contract_partial mul_preshrink_counterexample sqr_contract_partial cubic_contract_partial "
+    "add_sub_contract add_sub_far_contract round_sum_contract operators_add_sub div_contract ctx_div_contract_partial inv_contract "
+    "div_panics sqrt_contract sqrt_panics representable_exact add_sub_representable_exact div_representable_exact "
+    "sqrt_representable_exact repr_round_digits mul_sqr_cubic_digits sqrt_digits add_sub_digits div_digits "
+    "mul_contract_outside_region div_contract_outside_region add_sub_contract_outside_region div_preshrink_counterexample "
+    "add_guard_digit_counterexample").split()] + ["Dashu.Props.C03Link.sqrt_contract_over_sqrt_rem", "Dashu.Props.C03Link.kernels_agree"]
 EXPLANATION = ("Lean theorems over Rat for every base >= 2, precision >= 1, mode and operand: repr_round satisfies the rounding contract; "
                "mul/sqr/cubic follow from it (operands up to 2p/3p digits, i.e. all that fit p); add/sub for ALL operands that fit p - "
                "zero operands, equal exponents and the four alignment branches (far-apart with the sticky stand-in, two splitting "
